@@ -3,8 +3,8 @@ EXTENDS HotspotQps, Json
 
 CONSTANTS GenMode, GenDepth, MaxT, MaxN, RuleSets, MaxSteps, DTSel, ArgSel
 
-VARIABLES hist, cnt
-mcvars == <<hvars, hist, cnt>>
+VARIABLES hist, cnt, evicted    \* evicted: ghost, some value lost its bucket to the LRU replacement
+mcvars == <<hvars, hist, cnt, evicted>>
 
 HR(id, idx, key, thr, burst, dur, spec) ==
     [id |-> id, res |-> "r1", metric |-> "qps", ctl |-> "reject", idx |-> idx, key |-> key, thr |-> thr,
@@ -16,10 +16,15 @@ Pairs == { <<HR("h1", 0, "", 2, 0, 1, <<>>), HR("h2", 1, "", 1, 1, 1, <<>>)>>,
 SetsSmall == { <<HR("h1", 0, "", 2, 1, 1, ("b" :> 1))>>, <<HR("h1", 0, "", 1, 0, 1, <<>>)>>,
                <<HR("h1", 0, "", 3, 2, 2, <<>>)>> } \cup Pairs
 SetsAll == Singles \cup Pairs
+\* beyond the listed property: more distinct values than the rule's capacity (least-recently-used replacement)
+HRc(id, idx, thr, burst, dur, cap) == [HR(id, idx, "", thr, burst, dur, <<>>) EXCEPT !.cap = cap]
+SetsLru == { <<HRc("h1", 0, q, b, 1, c)>> : q \in 1..2, b \in 0..1, c \in 1..2 } \cup
+           { <<HRc("h1", 0, 1, 1, 1, 2), HRc("h2", 1, 2, 0, 1, 1)>> }
 
 ArgSets == { <<"a">>, <<"b">>, <<"a", "b">> }
 DTs == IF DTSel = "min" THEN {0, 1000, 1001} ELSE {0, 1, 999, 1000, 1001, 2001}
-ArgSetsC == IF ArgSel = "min" THEN { <<"a">>, <<"a", "b">> } ELSE ArgSets
+ArgSetsC == IF ArgSel = "min" THEN { <<"a">>, <<"a", "b">> }
+            ELSE IF ArgSel = "lru" THEN { <<"a">>, <<"b">>, <<"c">>, <<"a", "c">>, <<"c", "b">> } ELSE ArgSets
 
 EnterEvents ==
     {[e |-> "enter", id |-> Len(hist), res |-> "r1", n |-> n, args |-> a, t |-> now + dt] :
@@ -27,15 +32,18 @@ EnterEvents ==
 
 Log(ev) == hist' = (IF GenMode THEN Append(hist, ev) ELSE <<>>)
 
-MCInit == HotInit /\ hist = <<>> /\ cnt = 0
+MCInit == HotInit /\ hist = <<>> /\ cnt = 0 /\ evicted = FALSE
 MCNext ==
     \/ /\ ~on
        /\ LET ev == [e |-> "reset", t |-> 0, obs |-> 0] IN Reset(ev) /\ Log(ev) /\ cnt' = 1
+       /\ UNCHANGED evicted
     \/ /\ on /\ cnt = 1
        /\ \E rs \in RuleSets : LET ev == [e |-> "load", fam |-> "hot", op |-> "all", t |-> now, rules |-> rs] IN
              LoadHot(ev) /\ Log(ev) /\ cnt' = 2
+       /\ UNCHANGED evicted
     \/ /\ on /\ cnt = 2
        /\ \E ev \in EnterEvents : Enter(ev) /\ Log(ev) /\ cnt' = 2
+       /\ evicted' = (evicted \/ \E id \in DOMAIN bk : DOMAIN bk[id] \ DOMAIN bk'[id] # {})
 MCSpec == MCInit /\ [][MCNext]_mcvars
 
 StateBound == now <= MaxT
@@ -44,5 +52,13 @@ PrintBehaviour == (GenMode /\ Len(hist) = GenDepth) => PrintT(<<"REPLAY", ToJson
 
 GoalRefill == ~(\E id \in DOMAIN bk : \E v \in DOMAIN bk[id] : bk[id][v].last > bk[id][v].first)
 GoalTwoValues == ~(\E id \in DOMAIN bk : Cardinality(DOMAIN bk[id]) >= 2)
+\* LRU replacement: the caches never hold more than the capacity; a value that comes back after its
+\* eviction starts with a full bucket (first = now)
+WithinCap == \A r \in hot : Cardinality(DOMAIN bk[r.id]) <= CapOf(r)
+RanksDense == \A r \in hot : {bk[r.id][v].used : v \in DOMAIN bk[r.id]} = 1..Cardinality(DOMAIN bk[r.id])
+GoalEvicted == ~evicted
+GoalEvictedBack == ~(evicted /\ \E id \in DOMAIN bk : \E v \in DOMAIN bk[id] :
+                        bk[id][v].first = now /\ now > 0 /\ bk[id][v].used = Cardinality(DOMAIN bk[id]) /\ bk[id][v].admitted = 1
+                        /\ Cardinality(DOMAIN bk[id]) = 2)
 GoalExhausted == ~(\E id \in DOMAIN bk : \E v \in DOMAIN bk[id] : bk[id][v].tokens = 0 /\ bk[id][v].admitted >= 3)
 =============================================================================
